@@ -130,6 +130,56 @@ def rule_declare_path(check):
     uses2 = [n for n in hir.calls_in(dup.body, name="get_dd_local_variable_prefix")]
     sw = [n for n in hir.calls_in(dup.body, name="starts_with")]
     ok = len(uses2) == 1 and len(sw) == 1 and (hir.place(hir.call_args(sw[0])[0]) or "").endswith(".sym")
+
+    def prefix_source(fn_, e_, depth=0):
+        """the `<..>.local_var_prefix` place an expression derives from through
+        get_dd_local_variable_prefix(..) - directly, through a parameter (the call sites) or through a field
+        of a visitor that is set where the visitor is built; None if it does not"""
+        e_ = hir.peel_transparent(e_)
+        if depth > 5:
+            return None
+        if hir.is_call(e_) and hir.callee_name(e_) == "get_dd_local_variable_prefix":
+            pl = hir.place(hir.peel_transparent(hir.call_args(e_)[0])) or ""
+            if pl.endswith(".local_var_prefix") or pl.split("#")[0] == "local_var_prefix":
+                return pl.split(".", 1)[1] if "." in pl else pl.split("#")[0]
+            inner = prefix_source_arg(fn_, hir.call_args(e_)[0], depth + 1)
+            return inner
+        l_ = hir.local_of(e_)
+        if l_:
+            b_ = fn_.bindings().get(l_[0])
+            if b_ and b_["origin"][0] == "let" and b_["origin"][1] is not None:
+                return prefix_source(fn_, b_["origin"][1], depth + 1)
+            if b_ and b_["origin"][0] == "param":
+                outs = {prefix_source(g_, hir.call_args(c_)[b_["origin"][1]], depth + 1) for g_, c_ in prog.sites_calling(fn_) if hir.is_call(c_) and len(hir.call_args(c_)) > b_["origin"][1]}
+                return outs.pop() if len(outs) == 1 else None
+            return None
+        if e_.get("k") == "Field":
+            # a field: what the struct literals of its type put there
+            bt = (e_.get("base_ty") or "").replace("&mut ", "").replace("&", "").split("<")[0]
+            outs = set()
+            for g_ in prog.user_fns:
+                for lit in [x for x in hir.walk(g_.body) if x.get("k") == "Struct" and (x["res"].get("path") or "").split("<")[0] == bt]:
+                    for fl in lit["fields"]:
+                        if fl["name"] == e_["field"]:
+                            outs.add(prefix_source(g_, fl["e"], depth + 1))
+            return outs.pop() if len(outs) == 1 else None
+        return None
+
+    def prefix_source_arg(fn_, a_, depth):
+        l_ = hir.local_of(hir.peel_transparent(a_))
+        b_ = fn_.bindings().get(l_[0]) if l_ else None
+        if b_ and b_["origin"][0] == "param":
+            outs = set()
+            for g_, c_ in prog.sites_calling(fn_):
+                if hir.is_call(c_) and len(hir.call_args(c_)) > b_["origin"][1]:
+                    pl = hir.place(hir.peel_transparent(hir.call_args(c_)[b_["origin"][1]])) or ""
+                    outs.add(pl.split(".", 1)[1] if pl.endswith(".local_var_prefix") and "." in pl else None)
+            return outs.pop() if len(outs) == 1 else None
+        return None
+
+    src_dup = prefix_source(dup, hir.call_args(sw[0])[1]) if len(sw) == 1 and len(hir.call_args(sw[0])) > 1 else None
+    if not ok and len(sw) == 1 and (hir.place(hir.call_args(sw[0])[0]) or "").endswith(".sym"):
+        ok = src_dup is not None
     check.expect(ok, "SIBLING", "SIBLING/refused-prefix", hir.loc(dup.rec), "collision test = sym.starts_with(get_dd_local_variable_prefix(prefix))", "collision test does not compare sym with the shared prefix helper")
     # the call that names the temporaries (found through the provenance of what the temp helper returns)
     names = [cn_ for rec_ in chain_ for _hn, cn_, _r in rec_["namers"] if cn_ is not None]
@@ -148,7 +198,12 @@ def rule_declare_path(check):
         p1 = p2 if inner and all(i_.endswith(".local_var_prefix") and i_.split(".")[0].startswith("self#") for i_ in inner) else ["?"]
     else:
         p1 = [hir.place(hir.call_args(x)[1]) for x in d if len(hir.call_args(x)) > 1]
-    check.expect(bool(p1) and bool(p2) and set(p1) == set(p2), "SIBLING", "SIBLING/same-prefix", hir.loc(vbs.rec), "provider and collision check use the same configured prefix %s" % p1, "provider prefix %s differs from collision-check prefix %s" % (p2, p1))
+    same_ = bool(p1) and bool(p2) and set(p1) == set(p2)
+    if not same_ and src_dup is not None and p2:
+        # compared by what the two prefixes derive from (the configured `local_var_prefix`), wherever the
+        # derived text is kept in between
+        same_ = all((x or "").endswith(src_dup.split(".")[-1]) and (x or "").split(".", 1)[-1].endswith(src_dup.split(".", 1)[-1] if "." in src_dup else src_dup) for x in p2)
+    check.expect(same_, "SIBLING", "SIBLING/same-prefix", hir.loc(vbs.rec), "provider and collision check use the same configured prefix %s" % p1, "provider prefix %s differs from collision-check prefix %s" % (p2, p1))
 
 
 def _dup_test(prog, vbs):
